@@ -109,24 +109,35 @@ def run(ctx, r, ok, thorough):
     current = {}
 
     def effective(dd):
-        """name -> effective wrap_* options of the declaration(s) with that name, from the YAML alone"""
+        """name -> effective wrap_* options of the declaration(s) with that name, from the YAML alone
+        (functions, classes and namespaces; `block:` groups only contribute their options)"""
         eff = {}
         keys = ("wrap_c", "wrap_fortran", "wrap_python", "wrap_lua")
+
+        def note(name, o):
+            e = eff.setdefault(name, dict.fromkeys(keys, False))
+            for k in keys:
+                e[k] = e[k] or o[k]
 
         def walk(decls, inh):
             for d in decls:
                 o = dict(inh)
                 o.update({k: bool(v) for k, v in (d.get("options") or {}).items() if k in keys})
+                if "decl" not in d:
+                    if "declarations" in d:        # block: true
+                        walk(d["declarations"], o)
+                    continue
+                head = d["decl"].split()[0]
                 if "declarations" in d:
+                    if head in ("class", "namespace"):
+                        note("%s %s" % (head, d["decl"].split()[1]), o)
                     walk(d["declarations"], o)
                     continue
-                if d["decl"].split()[0] in ("enum", "typedef", "struct", "class", "namespace"):
+                if head in ("enum", "typedef", "struct", "class", "namespace"):
                     continue
                 m = re.search(r"(~?\w+)\s*\(", d["decl"])
                 if m:
-                    e = eff.setdefault(m.group(1), dict.fromkeys(keys, False))
-                    for k in keys:
-                        e[k] = e[k] or o[k]
+                    note(m.group(1), o)
         top = {k: bool((dd.get("options") or {}).get(k, k in ("wrap_c", "wrap_fortran"))) for k in keys}
         walk(dd["declarations"], top)
         return eff
@@ -169,6 +180,11 @@ def run(ctx, r, ok, thorough):
                 {"decl": "Xchain()"}, {"decl": "Xchain * xlink(int a)", "return_this": True}, {"decl": "int xval(int a = 1, int b = 2)"}]})
         else:
             ex.append({"decl": "void xcstr(const char *s, char *o +intent(out)+charlen(12))"})
+        if cxx:
+            # a `block:` group that only carries options, holding a class and a function
+            ex.append({"block": True, "options": {r.choice(["wrap_python", "wrap_lua", "wrap_fortran"]): r.random() < 0.4},
+                       "declarations": [{"decl": "class Xblk", "declarations": [{"decl": "Xblk()"}, {"decl": "int xbmeth(int a)"}]},
+                                        {"decl": "int xbfun(int a)"}]})
         r.shuffle(ex)
         return ex[:r.randrange(2, len(ex) + 1)]
 
@@ -277,6 +293,19 @@ def run(ctx, r, ok, thorough):
             for nd in all_nodes(self.newlibrary):
                 inits_seen.append(("init " + " ".join(chain_of(nd.options)), bits(nd.wrap),
                                    "%s %s" % (type(nd).__name__, getattr(nd, "name", None) or getattr(getattr(nd, "ast", None), "name", "?"))))
+            eff = current.get("eff") or {}
+            for nd in all_nodes(self.newlibrary):
+                kind = type(nd).__name__
+                if kind in ("ClassNode", "NamespaceNode"):
+                    want = eff.get("%s %s" % ("class" if kind == "ClassNode" else "namespace", nd.name))
+                    if want is None:
+                        continue
+                    got = {"wrap_fortran": nd.wrap.fortran, "wrap_c": nd.wrap.c, "wrap_lua": nd.wrap.lua, "wrap_python": nd.wrap.python}
+                    for opt in got:
+                        if bool(got[opt]) != bool(want[opt]):
+                            captured.setdefault("init_escapes", []).append(
+                                "%s %s is created with %s = %s although the description says %s for it" % (
+                                    kind, nd.name, opt, bool(got[opt]), bool(want[opt])))
         except Exception as e:  # noqa
             captured.setdefault("init_spy_error", repr(e))
         return orig_gen_library(self, *a, **k)
@@ -298,13 +327,16 @@ def run(ctx, r, ok, thorough):
             if flags[0] and not flags[1]:
                 flags[1] = True
             lib = libgen.gen_lib(r, name="fl%d" % i, options=dict(wrap_fortran=flags[0], wrap_c=flags[1], wrap_lua=flags[2], wrap_python=flags[3]))
+            if lib.language != "c" and i % 3 == 1:
+                lib.namespace = "xouter"           # the top-level `namespace:` field (library.wrap_namespace is not the library)
             shapes = clone_shapes(lib) if i % 2 == 0 else []
             lib.decls.extend(shapes)
             if shapes and r.random() < 0.4:
                 lib.options["F_CFI"] = True
             for sh in shapes:
-                ctx.cov.setdefault("clone_shapes", {}).setdefault(sh["decl"].split("(")[0].split()[-1], 0)
-                ctx.cov["clone_shapes"][sh["decl"].split("(")[0].split()[-1]] += 1
+                nm = sh["decl"].split("(")[0].split()[-1] if "decl" in sh else "block"
+                ctx.cov.setdefault("clone_shapes", {}).setdefault(nm, 0)
+                ctx.cov["clone_shapes"][nm] += 1
             # sprinkle per-declaration overrides at every depth
             def sprinkle(decls, depth, inh):
                 for d in decls:
@@ -322,7 +354,7 @@ def run(ctx, r, ok, thorough):
                         sprinkle(d["declarations"], depth + 1, eff)
             sprinkle(lib.decls, 0, {"wrap_c": bool(lib.options.get("wrap_c")), "wrap_fortran": bool(lib.options.get("wrap_fortran"))})
             for d0 in lib.decls:
-                if d0["decl"].startswith("int xrank"):
+                if d0.get("decl", "").startswith("int xrank"):
                     d0.setdefault("options", {})["wrap_python"] = False      # the Python wrapper rejects assumed rank
             d = os.path.join(work, "fl%d" % i)
             os.makedirs(d)
@@ -335,6 +367,8 @@ def run(ctx, r, ok, thorough):
             if exc is not None or "before" not in captured:
                 skipped[repr(exc)[:80]] = skipped.get(repr(exc)[:80], 0) + 1
                 continue
+            for esc in captured.get("init_escapes", [])[:3]:
+                ctx.fail("c15:node-created-against-description:" + " ".join(esc.split(" ")[:2]), esc, {"yaml": lib.yaml()})
             for esc in captured.get("flag_escapes", [])[:3]:
                 ctx.fail("c15:clone-wrapped-against-options:" + esc.split(" ")[0], esc, {"yaml": lib.yaml()})
             reqs.append("promote " + " ".join(captured["before"]))
